@@ -97,7 +97,7 @@ CHECKS = {
     "C19": ("vf-nexus", "exploration",
             "two-world non-interference (same script; the unreadable elements are never created in the second world; reference-closed; masked content varied), an independent reference decision function written from the documented rule order, twin-principal immediate-effect check, delegate-within-delegator view relation, host-side byte comparison of the control plane around every session command",
             "Generated governance configurations (2-4 principals, groups, grants scoped by kind / type / classification / element with ceilings, field masks and conditions, delegation chains incl. amplification attempts, versioned allow / deny policies, suspend / revoke / membership events) x 10-30-element populations x a battery of about 90 KQL / META commands. Quick: 2 128 cases (about 1 575 non-trivial): 64k two-world comparisons, 27k reference decisions, 34k requests issued right after a control-plane event (all 10 event kinds), 1.1k delegate-vs-delegator view checks, 7k session commands (40 shapes) each framed by a dump of the gov_* collections and every element's governance block. Thorough: 42 408 cases.",
-            "Eight genuine defects found: three repaired (K4 AS OF admitted by the historical classification, K5 HISTORY ELEMENT of a hidden id, K8 PREVIEW KML / mutation existence leak; their fixed cases now pass and a recurrence is a violation), five listed known findings (K1 reference disclosure, K2 SEARCH scores, K3 SEARCH over-fetch window, K6 SEARCH over masked fields, K9 a deny of the delegator does not reach delegates) that are reproduced by fixed cases and excluded by construction or attributed by signature (counted) in the generated sub-checks. Not covered: live wall-clock expiry (windows are years away), approvals / break-glass, max_results, BELIEF over masked confidence, cyclic delegations, named delegation chains. 11 hand-made mutants all caught in the quick tier.",
+            "Eight genuine defects found: four repaired (K3 SEARCH over-fetch window, K4 AS OF admitted by the historical classification, K5 HISTORY ELEMENT of a hidden id, K8 PREVIEW KML / mutation existence leak; their fixed cases now pass and a recurrence is a violation), four listed known findings (K1 reference disclosure, K2 SEARCH scores, K6 SEARCH over masked fields, K9 a deny of the delegator does not reach delegates) that are reproduced by fixed cases and excluded by construction or attributed by signature (counted) in the generated sub-checks. Not covered: live wall-clock expiry (windows are years away), approvals / break-glass, max_results, BELIEF over masked confidence, cyclic delegations, named delegation chains. 11 hand-made mutants all caught in the quick tier.",
             "§5 C19"),
     "C20": ("vf-nexus", "exploration",
             "differential against a harness reference (documented eligibility stages, graph connected components over shared actor / evidence, score = 1 - prod(1 - strongest confidence per group), accept/material table), order-permutation invariance, metamorphic laws, bounded-exhaustive enumeration of the grouping alphabet, through real KML/KQL",
